@@ -45,8 +45,12 @@ OpsOf(cls, s) ==
     [] cls = "NewNode" -> {[op |-> "NewNode", k |-> k] : k \in {x \in CertKeys : s.cert[x] = "none"}}
     [] cls = "AuthorizePending" -> {[op |-> "AuthorizePending", k |-> k] : k \in {x \in CertKeys : s.cert[x] = "pending" /\ ~s.rec[x]}}
     [] cls = "DialPending" -> {[op |-> "Dial", k |-> k, ex |-> RE({"none", "one"}), stt |-> RE({"none", "nested"})] : k \in {x \in CertKeys : s.cert[x] = "pending"}}
-    [] cls = "Rogue" -> {[op |-> "Rogue", k |-> k, kind |-> RE(RogueKinds), ex |-> RE({"none", "one", "many"})] : k \in {x \in CertKeys : s.cert[x] \in {"fresh", "stale"}}}
-    [] cls = "RotateNode" -> {[op |-> "RotateNode", k |-> k] : k \in {x \in CertKeys : s.cert[x] \in {"fresh", "stale"}}}
+    [] cls = "Rogue" -> {[op |-> "Rogue", k |-> k, kind |-> RE(RogueKinds), ex |-> RE({"none", "one", "many"})] : k \in {x \in CertKeys : s.cert[x] \in Issued}}
+    [] cls = "RotateNode" -> {[op |-> "RotateNode", k |-> k] : k \in {x \in CertKeys : s.cert[x] \in Issued}}
+    \* real-time steps of the root pair (behaviour configurations with second-scale root lifetimes only)
+    [] cls = "WaitOverlap" -> {[op |-> "WaitOverlap"]}
+    [] cls = "RotateWait" -> {[op |-> "RotateWait"]}
+    [] cls = "ExpireWait" -> {[op |-> "ExpireWait"]}
     [] cls = "RemovePrev" -> {[op |-> "RemovePrev", k |-> k] : k \in {x \in CertKeys : s.prevrec[x]}}
     [] cls = "DialPrev" -> {[op |-> "DialPrev", k |-> k] : k \in {x \in CertKeys : s.hasprev[x]}}
     [] cls = "Malformed" -> {[op |-> "Malformed", cls |-> RE(MalClasses), pfx |-> RE(MalPrefixes)]}
